@@ -60,6 +60,7 @@ class TaskStub:
         self.arbitration_id = msg.arbitration_id
         self.payload = rt.snapshot(msg.data)
         self.remote = msg.is_remote_frame
+        self.extended = msg.is_extended_id
 
     def stop(self):
         rt.emit("task.stop", self)
@@ -67,7 +68,10 @@ class TaskStub:
 
 class TaskStubModify(TaskStub):
     def modify_data(self, msg):
+        # python-can: the new message must keep the arbitration id; its other attributes replace the old ones
         self.payload = rt.snapshot(msg.data)
+        self.remote = msg.is_remote_frame
+        self.extended = msg.is_extended_id
         rt.emit("task.modify", self)
 
 
